@@ -1,4 +1,5 @@
 import PBProofs.Lemmas.TasksProgress
+import PBProofs.Lemmas.TasksDelay
 /-
 C07 — Tasks: no self-overlap, no early or cancelled runs, queue order, nothing lost.
 
@@ -81,6 +82,85 @@ theorem schedule_handler_acts_only_when_due {s : St} {t : Nat}
   rcases h with h | h
   · exact (fetchRes_asap h).2.1
   · exact (fetchRes_run h).2.1
+
+/-- The same over the model step: whatever the fetch step of the schedule handler takes up — for a direct run
+    (`overtime` entry) or for `StartASAP` (scheduled entry) — is due at the clock reading of the step. The order of
+    the two tests of the fetch section is `PB.Gen.Tasks.fetchOut`, regenerated from `taskScheduleHandler`: with the
+    due test inside only one of the branches this theorem (and `fetchRes_run` / `fetchRes_asap`) no longer holds. -/
+theorem schedule_handler_step_only_when_due {s s' : St} {now t : Nat} (hstep : step s now .shFetch = some s')
+    (h : s'.sh = .holdRun t ∨ s'.sh = .holdAsap t) : (s.tasks t).executeAt ≤ now := by
+  have h1 := (step_eq hstep).2
+  obtain ⟨_, hr | hr | hr⟩ := shFetch_result h1
+  · obtain ⟨u, hf, hu⟩ := hr
+    have : u = t := by rcases h with h | h <;> rw [hu] at h <;> cases h; rfl
+    subst this
+    simpa [setNow] using (fetchRes_run hf).2.1
+  · obtain ⟨u, hf, hu⟩ := hr
+    have : u = t := by rcases h with h | h <;> rw [hu] at h <;> cases h; rfl
+    subst this
+    simpa [setNow] using (fetchRes_asap hf).2.1
+  · rcases h with h | h <;> rw [hr] at h <;> cases h
+
+/-- The flag writes of the two acting branches of the fetch section as the model has them (`overtime := false`
+    before the direct run, `overtime := true` before `StartASAP`) are the ones in the source. -/
+theorem fetch_section_flag_writes :
+    PB.Gen.Tasks.overtimeOnRun = false ∧ PB.Gen.Tasks.overtimeOnAsap = true := by decide
+
+/-! ### Direct starts by the schedule handler (the max-delay exception of the serial queue) -/
+
+/-- A task that waits in a queue is taken out of the schedule for a direct run (not through the queue) only when
+    the max delay of its last queueing call has fully elapsed — provided the time in its schedule entry is the
+    max-delay deadline, i.e. no time given to `Schedule` has replaced it (the excluded class, see below). -/
+theorem direct_run_only_after_max_delay_partial {s s' : St} {now t : Nat} (h : Reachable s)
+    (hstep : step s now .shFetch = some s') (hrun : s'.sh = .holdRun t) (hu : (s.tasks t).eaUser = false) :
+    (s.tasks t).qAt + (s.tasks t).qMd ≤ now := by
+  have h1 := (step_eq hstep).2
+  have hD := invDelay_setNow (n := now) (reachable_invDelay h)
+  obtain ⟨_, hr | hr | hr⟩ := shFetch_result h1
+  · obtain ⟨u, hf, hu'⟩ := hr
+    have : u = t := by rw [hu'] at hrun; cases hrun; rfl
+    subst this
+    obtain ⟨hm, hdue, hov⟩ := fetchRes_run hf
+    have := hD u hm hov (by simpa [setNow] using hu)
+    simp [setNow] at this hdue
+    omega
+  · obtain ⟨u, hf, hu'⟩ := hr; rw [hu'] at hrun; cases hrun
+  · rw [hr] at hrun; cases hrun
+
+/-- The excluded class is exactly: the entry holds a time given to `Schedule`, and that time has come. -/
+theorem direct_run_at_scheduled_time_only_when_come {s s' : St} {now t : Nat} (h : Reachable s)
+    (hstep : step s now .shFetch = some s') (hrun : s'.sh = .holdRun t) (hu : (s.tasks t).eaUser = true) :
+    (s.tasks t).executeAt ∈ (s.tasks t).schedHist ∧ (s.tasks t).executeAt ≤ now :=
+  ⟨((reachable_inv h).early t).2.2.2.2.2 hu, schedule_handler_step_only_when_due hstep (Or.inl hrun)⟩
+
+/-- The history behind the recorded finding `C07:waiting-task-started-directly-at-scheduled-time`: task 1 is
+    started by the queue handler and runs; task 0 is queued behind it with a max delay of 1000 and is then given the
+    scheduled time 50; at 50 the schedule handler takes it for a direct run and starts it. -/
+def directTrace : List (Nat × Act) :=
+  [(1, .maxDelay 1 0), (1, .queue 1), (2, .qhWait), (3, .qhPop), (4, .runQ), (5, .spawnQ), (6, .fnBegin 1),
+   (7, .maxDelay 0 1000), (8, .queue 0), (9, .schedule 0 50), (50, .shFetch)]
+
+/-- The full-strength statement "a waiting task is taken for a direct run only after its max delay elapsed" is
+    FALSE on the code as it is: the `overtime` flag of a max-delay entry survives `Schedule`. In the witness the
+    previously started queue task (task 1) is still inside its function, not cancelled, its watcher has not timed
+    out, and task 0 is then started (`runS`) 42 ticks after it was queued with max delay 1000. -/
+theorem direct_run_only_after_max_delay_REFUTED :
+    ¬ (∀ s s' now t, Reachable s → step s now .shFetch = some s' → s'.sh = .holdRun t →
+        (s.tasks t).qAt + (s.tasks t).qMd ≤ now) := by
+  intro hall
+  have hsome : (runTrace init directTrace.dropLast).isSome = true := by decide
+  obtain ⟨s, hs⟩ := Option.isSome_iff_exists.1 hsome
+  have hr : Reachable s := reachable_runTrace _ Reachable.init hs
+  have hsome' : (step s 50 .shFetch).isSome = true := by
+    have : ((runTrace init directTrace.dropLast).bind fun s => step s 50 .shFetch).isSome = true := by decide
+    rw [hs] at this; simpa using this
+  obtain ⟨s', hs'⟩ := Option.isSome_iff_exists.1 hsome'
+  have hfacts : ((runTrace init directTrace.dropLast).bind fun s => (step s 50 .shFetch).map fun s' =>
+      (decide (s'.sh = .holdRun 0), (s.tasks 0).qAt, (s.tasks 0).qMd)) = some (true, 8, 1000) := by decide
+  rw [hs] at hfacts
+  simp [hs'] at hfacts
+  have := hall s s' 50 0 hr hs' hfacts.1
+  omega
 
 /-! ### Cancel -/
 
@@ -350,10 +430,10 @@ theorem due_task_is_taken_up {s s' : St} {now : Nat} {t : Nat} {rest : List Nat}
   · have hnd : ¬ now < (s.tasks t).executeAt := by omega
     cases ho : (s.tasks t).overtime
     · have hf : fetchRes (setNow s now) = FetchRes.asap t := by
-        simp [fetchRes, setNow, hs, hnd, ho]
+        simp [fetchRes, setNow, hs, hnd, ho, PB.Gen.Tasks.fetchOut]
       rw [hf] at h1; simp at h1; subst h1; simp [setTask, setNow]
     · have hf : fetchRes (setNow s now) = FetchRes.run t := by
-        simp [fetchRes, setNow, hs, hnd, ho]
+        simp [fetchRes, setNow, hs, hnd, ho, PB.Gen.Tasks.fetchOut]
       rw [hf] at h1; simp at h1; subst h1; simp [setTask, setNow]
 
 /-! ### Non-vacuity -/
@@ -381,6 +461,22 @@ example : (runTrace init [(1, .schedule 0 100), (50, .shFetch), (100, .shFetch),
 example : (runTrace init [(1, .queue 0), (2, .qhWait), (3, .qhPop), (4, .runQ), (5, .spawnQ), (6, .fnBegin 0),
     (7, .cancel 0), (8, .qhWait), (9, .slotFree 0 false)]).map
       (fun s => (decide (s.qh = .ready), (s.tasks 0).byQh, (s.tasks 0).fn, (s.tasks 0).ctxDone)) = some (true, true, 1, true) := by decide
+
+/-- The witness of the finding continues to a direct start next to the running queue task: after `runS` task 0 is
+    executing, started by the schedule handler, while task 1 (started by the queue handler) is inside its function,
+    not cancelled and not timed out. -/
+example : (runTrace init (directTrace ++ [(51, .runS)])).map
+    (fun s => ((s.tasks 0).executing, (s.tasks 0).starts, (s.tasks 1).fn, (s.tasks 1).byQh, (s.tasks 1).ctxDone, (s.tasks 1).tmo))
+    = some (true, 1, 1, true, false, false) := by decide
+
+/-- `direct_run_only_after_max_delay_partial` is not vacuous: a queued task whose max delay (20) elapses while the
+    queue is occupied is taken for a direct run at 28 = 8 + 20, and not before (the fetch at 27 leaves the handler idle). -/
+example : (runTrace init [(1, .maxDelay 1 0), (1, .queue 1), (2, .qhWait), (3, .qhPop), (4, .runQ), (5, .spawnQ),
+    (6, .fnBegin 1), (7, .maxDelay 0 20), (8, .queue 0), (27, .shFetch)]).map
+      (fun s => (decide (s.sh = .idle), (s.tasks 0).eaUser, (s.tasks 0).qAt + (s.tasks 0).qMd)) = some (true, false, 28) := by decide
+example : (runTrace init [(1, .maxDelay 1 0), (1, .queue 1), (2, .qhWait), (3, .qhPop), (4, .runQ), (5, .spawnQ),
+    (6, .fnBegin 1), (7, .maxDelay 0 20), (8, .queue 0), (27, .shFetch), (28, .shFetch)]).map
+      (fun s => decide (s.sh = .holdRun 0)) = some true := by decide
 
 /-- A cancelled waiting task is refused by the check section. -/
 example : (runTrace init [(1, .queue 0), (2, .cancel 0), (3, .qhWait), (4, .qhPop), (5, .runQ)]).map
